@@ -190,8 +190,11 @@ template <class Mesh> void HistRun<Mesh>::op_bad(R &r, const Op &q) {
         for (auto &fc : T.faces) { std::vector<int> cyc; for (int i : fc) cyc.push_back(vs[i]); int hf = obtain_halfface(r, cyc); if (hf < 0) return; hfs.push_back(hf); }
         if (KID == 2) hfs = {hfs[0], hfs[1], hfs[2], hfs[4], hfs[3], hfs[5]};
         before = take_snap(*r.mesh);
-        int defect = q.a[1] % 6;
+        if (q.a[2] & 16) { for (int &h : hfs) h ^= 1; st.add("probe_bad_cell_all_sides_flipped"); }   // the mirror image is a closed surface too (still a valid argument)
+        int defect = q.a[1] % 8;
         switch (defect) {
+        case 6: { size_t i = (size_t)(q.a[2] % (int)hfs.size()), j = (i + 1 + (size_t)((q.a[2] / 32) % (int)(hfs.size() - 1))) % hfs.size(); hfs[i] = hfs[j]; } st.add("probe_bad_cell_same_size_duplicate"); break;   // one entry replaced by a copy of another (size preserved)
+        case 7: hfs[(size_t)(q.a[2] % (int)hfs.size())] ^= 1; hfs[0] ^= (q.a[2] & 8) ? 1 : 0; break;            // wrong side(s), size preserved
         case 5: hfs.clear(); st.add("probe_bad_cell_empty_list"); break;   // the empty list
         case 0: hfs.pop_back(); break;                       // missing face
         case 1: hfs.push_back(hfs[0]); break;                // doubled halfface
